@@ -98,8 +98,9 @@ Proof. exact return_restores_caller. Qed.
 Print Assumptions C03_return_restores_caller.
 
 (* ---- forward simulation of calls (Lang/Simulation3.v) ----
-   A call `f a b ...` of a user routine whose body is covered (settings, assignments, print, wait, set / on / off, if / else,
-   blocks, while / counted / endless loops, break, further calls, return -- no routine reaching itself), arguments ordinary values,
+   A call `f a b ...` of a user routine, the bodies of all routines covered (settings, assignments, print, wait, set / on / off,
+   if / else, blocks, while / counted / indexed / endless loops, break, further calls -- of other routines and of the routine itself,
+   to any depth the reference run reaches -- and return), arguments ordinary values,
    anywhere in an image that holds the compiled routine bodies, inside a routine or not: whenever the reference semantics runs the
    call (arguments evaluated in the caller's scope, parameters bound by value as the routine's own variables hiding the globals of
    the same name, the body run, `return` from any depth of loops) the compiled CTX / PARAM / JSR / END_CTX sequence and the
@@ -109,8 +110,9 @@ Print Assumptions C03_return_restores_caller.
 From Bardolph Require Import Lang.Instr Lang.Loader Lang.CodeGen Lang.ExprCompile Lang.Simulation Lang.CallFrames Lang.Simulation3.
 
 Theorem C03_call_runs_as_its_source_says :
-  forall rt mt (inl inr : bool) f args b d, builtin_params f builtin_table = None -> find_rdef rt f = Some d ->
-  plain_args mt args (rd_params d) = true -> SimpleB rt mt false true (rd_body d) ->
+  forall rt mt, bodies_ok rt mt ->                                        (* the body of every routine of the table is covered *)
+  forall f args b d, builtin_params f builtin_table = None -> find_rdef rt f = Some d ->
+  plain_args mt args (rd_params d) = true ->
   forall after im ss s sig ss' fuel, routines_loaded rt mt im -> depth_ok (m_frames s) (zlength (m_stack s)) -> sim ss s ->
   code_at im (m_pc s) (c_stmt rt mt false after (SCall f args b)) ->
   Sem.exec rt mt fuel false ss (SCall f args b) = ROk sig ss' ->
